@@ -43,6 +43,7 @@ type caseJ struct {
 	Action         string  `json:"action,omitempty"` // reject | partial
 	NoAccess       bool    `json:"no_access,omitempty"`
 	EngineOff      bool    `json:"engine_off,omitempty"`
+	DetectionOnly  bool    `json:"detection_only,omitempty"`
 	BP             string  `json:"bp,omitempty"` // none | urlencoded | raw | force
 	NotProcessable bool    `json:"not_processable,omitempty"`
 	Deny           bool    `json:"deny,omitempty"`
@@ -150,7 +151,7 @@ type wafEnv struct {
 }
 
 func (e *env) get(c *caseJ, mem int64) (*wafEnv, error) {
-	key := fmt.Sprintf("%s|%d|%d|%s|%v|%v|%v", c.Dir, c.Limit, mem, c.Action, c.NoAccess, c.EngineOff, c.Deny)
+	key := fmt.Sprintf("%s|%d|%d|%s|%v|%v|%v|%v", c.Dir, c.Limit, mem, c.Action, c.NoAccess, c.EngineOff, c.Deny, c.DetectionOnly)
 	if w, ok := e.wafs[key]; ok {
 		return w, nil
 	}
@@ -173,6 +174,8 @@ func (e *env) get(c *caseJ, mem int64) (*wafEnv, error) {
 	}
 	if c.EngineOff {
 		waf.RuleEngine = types.RuleEngineOff
+	} else if c.DetectionOnly {
+		waf.RuleEngine = types.RuleEngineDetectionOnly
 	}
 	phase, v := 2, "REQUEST_BODY"
 	if c.Dir == "resp" {
@@ -483,7 +486,11 @@ func (c *caseJ) term(o *obs) string {
 	}
 	fin := fmt.Sprintf("(Build_ofinal %s %s %s %s %s %s %s %s %s)",
 		obytes(o.contents, large), vh.Z(o.size), obytes([]byte(o.bodyvar), large), seen, coqBool(o.dataerr), vh.Z(int64(o.phase)), coqBool(o.spilled), vh.Z(int64(o.intr)), vh.HxS(o.lenvar))
-	return fmt.Sprintf("CT %s %s %s %s %s %s %s %s %s %s %s %s %s %s", dir, vh.Z(c.Limit), vh.Z(c.Mem), act,
+	ctor := "CT"
+	if c.DetectionOnly {
+		ctor = "CTD"
+	}
+	return fmt.Sprintf(ctor+" %s %s %s %s %s %s %s %s %s %s %s %s %s %s", dir, vh.Z(c.Limit), vh.Z(c.Mem), act,
 		coqBool(!c.NoAccess), coqBool(!c.EngineOff), bp, coqBool(!c.NotProcessable), coqBool(c.Deny), vh.Z(int64(c.Phase0)),
 		body, vh.List(calls), vh.List(rets), fin)
 }
@@ -708,6 +715,12 @@ func (r *runner) runTx(c *caseJ) error {
 	if hasCtl(c) {
 		d["with_ctl_limit"]++
 	}
+	if c.DetectionOnly {
+		d["detection_only"]++
+		if c.Deny {
+			d["detection_only_with_deny_rule"]++
+		}
+	}
 	if c.Dir == "resp" && c.Mem > 0 && int64(len(o.contents)) > c.Mem {
 		d["resp_stored_above_request_inmem_limit"]++
 	}
@@ -742,7 +755,7 @@ func (r *runner) runTx(c *caseJ) error {
 	default:
 		d["size_above_limit"]++
 	}
-	key, _ := json.Marshal([]any{c.Dir, c.Limit, c.Mem, c.Action, c.NoAccess, c.EngineOff, c.BP, c.NotProcessable, c.Deny, c.Phase0, c.BodyHex, c.GenLen, c.GenSeed, c.Calls})
+	key, _ := json.Marshal([]any{c.Dir, c.Limit, c.Mem, c.Action, c.NoAccess, c.EngineOff, c.BP, c.NotProcessable, c.Deny, c.Phase0, c.BodyHex, c.GenLen, c.GenSeed, c.Calls, c.DetectionOnly})
 	if !r.seen[string(key)] {
 		r.seen[string(key)] = true
 		if active && supplied > 0 {
@@ -1207,6 +1220,39 @@ func generate(cfg vh.Config, rng *rand.Rand, r *runner) error {
 			left -= n
 		}
 		c.Calls = append(c.Calls, callJ{K: "p"})
+		if err := r.runTx(c); err != nil {
+			return err
+		}
+	}
+	// 6. RuleEngine DetectionOnly (own PRNG stream, appended after every earlier family): both
+	//    directions, both actions, sizes around the limit, half of the cases with a deny rule in the
+	//    body phase (it must not interrupt; the Reject limit action still does)
+	rng2 := vh.Rng(cfg.Seed, "C10-growth2")
+	for i := 0; i < cfg.Pick(400, 8000); i++ {
+		limit := int64(1 + rng2.Intn(24))
+		mem := 1 + rng2.Int63n(limit)
+		c := &caseJ{Kind: "tx", Dir: []string{"req", "resp"}[rng2.Intn(2)], Limit: limit, Mem: mem,
+			Action: []string{"reject", "partial"}[rng2.Intn(2)], DetectionOnly: true}
+		total := int(limit) + rng2.Intn(7) - 3
+		if total < 0 {
+			total = 0
+		}
+		c.BodyHex = randBody(rng2, total)
+		var calls []callJ
+		left := total
+		for left > 0 {
+			n := 1 + rng2.Intn(left)
+			m := modes[rng2.Intn(3)]
+			m.N = n
+			calls = append(calls, m)
+			left -= n
+		}
+		decorate(rng2, c, calls)
+		c.EngineOff = false
+		c.Deny = rng2.Intn(2) == 0
+		if c.Phase0 == 0 {
+			c.Phase0 = map[string]int{"req": 1, "resp": 3}[c.Dir]
+		}
 		if err := r.runTx(c); err != nil {
 			return err
 		}
